@@ -44,7 +44,7 @@ IMPORTS = ("From PM.theories Require Import Base Ladder Frontends CorrFrontends.
 
 STREAM = ["SyncTcp", "AioTcp", "TwTcp"]
 DGRAM = ["SyncUdp", "AioUdp"]
-KINDS = ["r1", "r2", "r3", "r4", "w5", "w6", "w15", "w16", "w22", "w23", "dev"]
+KINDS = ["r1", "r2", "r3", "r4", "w5", "w6", "w15", "w16", "w22", "w23", "dev", "dev0"]   # dev0: execute() raises -> 04
 
 
 def interleavings(counts, cap, r):
@@ -68,7 +68,9 @@ def interleavings(counts, cap, r):
 
 def make_session(r, framer, dgram):
     multi = r.random() < 0.5
-    spec = {"single": not multi, "units": r.choice([[1], [1, 2], [2, 17]]) if multi else [0], "size": 16}
+    # hosted sets containing 0 let every unit id through the framer's unit filter, so that requests
+    # for a missing unit reach execute() (NoSuchSlave -> exception 0x0B or silence)
+    spec = {"single": not multi, "units": r.choice([[1], [1, 2], [0, 3], [0, 3], [2, 17]]) if multi else [0], "size": 16}
     cfg = {"broadcast_enable": False, "ignore_missing_slaves": r.random() < 0.4}
     nconn = r.choice([1, 2, 2, 3, 3])
     tid = r.randrange(1, 60000)
@@ -82,7 +84,7 @@ def make_session(r, framer, dgram):
             hosted = spec["units"] if multi else [1, 7]
             uid = r.choice(hosted + hosted + ([9] if multi else []))      # 9: a unit nobody hosts
             kind = r.choice(KINDS)
-            pdu = valid_pdu(r, kind, spec["size"])
+            pdu = valid_pdu(r, kind, spec["size"]) if kind != "dev0" else L.pdu_devinfo(0, 0)
             if r.random() < 0.15:       # illegal data address -> exception response 02
                 pdu = pdu[:1] + b"\x00\x64" + pdu[3:] if pdu[0] != 0x2B else pdu
             tid += 1
@@ -228,7 +230,10 @@ def build(tier):
                             "serial": [[x.hex() for x in c] for c in ser[0]]}
                     any_raise = any(res[fe][3] for fe in fes)
                     desc["raised"] = {fe: [list(map(str, x)) for x in res[fe][3]] for fe in fes if res[fe][3]}
-                    common_ok = not any_raise
+                    # outside the common features only when EVERY front-end saw an exception on this
+                    # traffic (same framer, same cause: the listed exception-policy difference); an
+                    # exception in some front-ends only is a divergence and is judged
+                    common_ok = not all(res[fe][3] for fe in fes)
                     term = ("{| ec_common := %s; ec_outs := %s; ec_stores := %s; ec_serial_outs := %s; ec_serial_store := %s |}" % (
                         boolean(common_ok), lst(conns_term(res[fe][0]) for fe in fes),
                         lst(zlist(res[fe][1]) for fe in fes), conns_term(ser[0]), zlist(ser[1])))
